@@ -15,7 +15,7 @@
 From Coq Require Import ZArith QArith Qround Qabs List Lia.
 From MptV Require Import C18.LinepartModel C18.LinepartSpec C18.LinepartCode C18.LinepartLocal
   C18.LinepartGlobal C18.LinepartRound C18.LinepartMerge C18.LinepartDims C18.LinepartPoints2 C18.LinepartKeeps
-  C18.PolylineModel C18.PolylineSpec C18.PolylineSegs C18.PolylineProofs C18.PolylineDims.
+  C18.PolylineModel C18.PolylineSpec C18.PolylineSegs C18.PolylineProofs C18.PolylineDims C18.PolylineTotal.
 Import ListNotations.
 Local Open Scope Z_scope.
 
@@ -218,6 +218,41 @@ Theorem C18_polyline_iterator :
       map view_tuple vs = views_of 0 (firstn k ps) /\ Forall (fun p => usr p = 0) (skipn k ps).
 Proof. exact polyline_walk_one. Qed.
 
+(* polyline::set(transform, stores) for ANY list of value stores - any number, with or without doubles, of any (unequal)
+   lengths - on any polyline: [maxsize] (as patched: docs/C18_maxsize_all_stores.diff) is the number of values of the
+   LONGEST store of doubles (-1 without one); without values the call fails and leaves the polyline as it is; otherwise
+   it ends (no SetStall), never reads outside a store (no SetFault - neither in the merge loops nor in apply_data), the part
+   list covers exactly maxsize points (every value of every store is consumed exactly once, also those of a store that
+   is longer than the first), it fails exactly when nothing is drawn and else holds one point per drawn point *)
+Theorem C18_polyline_set_any_stores :
+  forall st sts,
+    ((forall r d, In (SData r d) sts -> zlen d <= maxsize sts) /\
+     (maxsize sts = -1 \/ exists r d, In (SData r d) sts /\ maxsize sts = zlen d)) /\
+    ((maxsize sts <= 0 /\ polyline_set st sts = SetOk false st) \/
+     (0 < maxsize sts /\
+      exists ps, vis_loop_stores 0 (set_parts (maxsize sts)) sts = Done ps /\ Forall wfp ps /\ sum_raw ps = maxsize sts /\
+        ((sum_usr ps = 0 /\ polyline_set st sts = SetOk false (mkps ps [])) \/
+         (0 < sum_usr ps /\ exists pts, polyline_set st sts = SetOk true (mkps ps pts) /\ zlen pts = sum_usr ps)))).
+Proof. exact polyline_set_any. Qed.
+
+(* a store with FEWER values than the longest (at any of the three positions the transformation has dimensions for):
+   no point behind its last value is drawn by any part - the points the dimension has no value for are consumed but not
+   reported as drawn *)
+Theorem C18_polyline_short_dimension :
+  forall sts ps, 0 < maxsize sts ->
+    vis_loop_stores 0 (set_parts (maxsize sts)) sts = Done ps ->
+    forall k r d, nth_error sts k = Some (SData r d) -> (k < 3)%nat -> d <> [] ->
+      forall i, zlen d <= i -> draw_count 0 ps i = 0.
+Proof. exact polyline_short_dimension. Qed.
+
+(* apply_data(points, part records, transform, stores) for ANY part records (two uint16 counters each; they need not come
+   from polyline::set on these stores) and any stores: as patched (docs/C18_apply_data_remaining.diff) it never reads
+   behind a store and keeps the number of points *)
+Theorem C18_apply_data_any_parts :
+  forall ps n sts, Forall wfp ps ->
+    exists pts proc, apply_data_parts ps n sts = Ok (pts, proc) /\ length pts = Z.to_nat n.
+Proof. exact apply_data_parts_safe. Qed.
+
 (* ---- non-vacuity ---- *)
 Definition r13 : range := mkrange (1 # 1) (3 # 1).
 Definition d7 : list Q := [0 # 1; 2 # 1; 5 # 1; 6 # 1; 5 # 2; 3 # 1; 4 # 1]%Q.
@@ -329,6 +364,27 @@ Proof.
   unfold interior_out, inr. vm_compute. repeat split; intros; discriminate.
 Qed.
 
+(* unequal lengths: the FIRST store has 2 values, the second 4: four points are covered, two are drawn (as when the
+   stores come in the other order); records that reach behind the data of a dimension: the second part gets the one
+   value that is left, nothing behind the store is read *)
+Example C18_unequal_lengths_example :
+  let x := [1 # 1; 2 # 1]%Q in
+  let y := [1 # 1; 2 # 1; 3 # 1; 4 # 1]%Q in
+  maxsize [SData None x; SData None y] = 4 /\ maxsize [SNone; SData None x] = 2 /\ maxsize [SNone; SData None []] = 0 /\
+  (exists st, polyline_set (mkps [] []) [SData None x; SData None y] = SetOk true st /\
+     vis st = [mkpart 4 2 0 0] /\ map (fun p => (Qred (fst p), Qred (snd p))) (pts st) = [(1 # 1, 1 # 1); (2 # 1, 2 # 1)]%Q) /\
+  (exists st, polyline_set (mkps [] []) [SData None y; SData None x] = SetOk true st /\ vis st = [mkpart 4 2 0 0]) /\
+  (exists p, apply_data_parts [mkpart 3 3 0 0; mkpart 3 3 0 0] 6 [SData None y] = Ok (p, 1) /\
+     map (fun q => Qred (fst q)) p = [1 # 1; 2 # 1; 3 # 1; 4 # 1; 0 # 1; 0 # 1]%Q) /\
+  (exists p, apply_data_parts [mkpart 3 3 0 32768] 3 [SData None x] = Ok (p, 1) /\
+     map (fun q => Qred (fst q)) p = [1 # 1; 2 # 1; 0 # 1]%Q).
+Proof.
+  cbv zeta. split; [vm_compute; reflexivity|]. split; [vm_compute; reflexivity|]. split; [vm_compute; reflexivity|].
+  split; [eexists; split; [vm_compute; reflexivity|vm_compute; split; reflexivity]|].
+  split; [eexists; split; [vm_compute; reflexivity|vm_compute; reflexivity]|].
+  split; eexists; (split; [vm_compute; reflexivity|vm_compute; reflexivity]).
+Qed.
+
 Print Assumptions C18_progress.
 Print Assumptions C18_consumes_each_point_once.
 Print Assumptions C18_in_range_drawn_once.
@@ -349,3 +405,6 @@ Print Assumptions C18_polyline_iterator.
 Print Assumptions C18_further_dimension_points.
 Print Assumptions C18_polyline_two_dimensions.
 Print Assumptions C18_polyline_three_dimensions.
+Print Assumptions C18_polyline_set_any_stores.
+Print Assumptions C18_polyline_short_dimension.
+Print Assumptions C18_apply_data_any_parts.
